@@ -116,7 +116,7 @@ def required(tier):
         "compact_prefix_changed": 200000, "base_system_structure_checks": 150000,
         "preferred_checks": 2500, "preferred_units_changed": 1000, "auto_reduce_checks": 50000,
         "auto_reduce_merges_observed": 15000, "auto_preferred_checks": 1500, "nonmult_checks": 300,
-        "systems": 7, "magnitude_kinds": 5, "decades": 60, "units_seen_in_compact": 385,
+        "systems": 7, "magnitude_kinds": 5, "decades": 60, "units_seen_in_compact": 380,
         "helpers": 9, "compact_special_kinds": 15,
     }
 
@@ -130,17 +130,17 @@ def shards(tier, seed):
                         "regs": {"fraction": 330, "float": 230, "decimal": 70}})
         else:
             out.append({"kind": "helpers", "system": s, "name": f"helpers-{s}-F",
-                        "regs": {"fraction": 30000}})
+                        "regs": {"fraction": 24000}})
             out.append({"kind": "helpers", "system": s, "name": f"helpers-{s}-f",
-                        "regs": {"float": 24000, "decimal": 6000}})
+                        "regs": {"float": 18000, "decimal": 5000}})
     for i, nit in enumerate(("fraction", "float", "decimal") if q else
                             ("fraction", "fraction", "float", "decimal")):
         out.append({"kind": "compact", "nit": nit, "name": f"compact-{nit}-{i}",
-                    "n": 3000 if q else 150000, "sweep": 3 if q else 12})
+                    "n": 3000 if q else 120000, "sweep": 3 if q else 12})
     for i, nit in enumerate(("fraction", "float") if q else ("fraction", "fraction", "float")):
         slow = 2 if nit == "fraction" else 1         # mip on Fraction coefficients is ~5x slower
         out.append({"kind": "auto", "nit": nit, "name": f"auto-{nit}-{i}",
-                    "n": 900 if q else 35000, "npref": (60 if q else 1200) // slow})
+                    "n": 900 if q else 28000, "npref": (60 if q else 1200) // slow})
     for i, nit in enumerate(("fraction", "float") if q else ("fraction", "fraction", "float")):
         slow = 3 if nit == "fraction" else 1
         out.append({"kind": "preferred", "nit": nit, "name": f"preferred-{nit}-{i}",
